@@ -234,11 +234,11 @@ theorem blockOKB_sound (b : Block) (h : blockOKB b = true) : blockOK b := by
   exact ⟨identOKB_sound _ hl, fun i hi' => ⟨instOKB_sound i (hi i hi').1, (hi i hi').2⟩, instOKB_sound _ ht, htt⟩
 
 theorem headerString_sig (f : Func) :
-    headerString f = sDefine ++ (tyString f.ret ++ [32] ++ Enc.globalName f.name ++ [40] ++ paramsString f.params ++ [41]) ++ [32, 123] := by
-  simp [headerString, sOpen]
+    headerString f = sDefine ++ (flagsString kLead f.lead ++ tyString f.ret ++ [32] ++ Enc.globalName f.name ++ [40] ++ paramsString f.params ++ [41]) ++ [32, 123] := by
+  simp [headerString, headerRest, sOpen]
 
-theorem readDecl_print (f : Func) (h : headerOK f) : readDecl (declString f) = some (f.ret, f.name, f.params) := by
-  have e : declString f = sDeclare ++ (tyString f.ret ++ [32] ++ Enc.globalName f.name ++ [40] ++ paramsString f.params ++ [41]) := by
+theorem readDecl_print (f : Func) (h : headerOK f) : readDecl (declString f) = some (f.lead, f.ret, f.name, f.params) := by
+  have e : declString f = sDeclare ++ (flagsString kLead f.lead ++ tyString f.ret ++ [32] ++ Enc.globalName f.name ++ [40] ++ paramsString f.params ++ [41]) := by
     simp [declString]
   rw [readDecl, e, TyParse.stripPrefix_append]
   simp only
@@ -269,13 +269,13 @@ theorem mdWF_sound (useHex : Int → Bool) (f : Func) (h : mdWF useHex f = true)
   exact ⟨fun i hi => mdInstOKB_sound useHex i (this i (Or.inl hi)), mdInstOKB_sound useHex _ (this _ (Or.inr rfl))⟩
 
 theorem readFunc_print (useHex : Int → Bool) (f : Func) (h : wfSyn f = true) (hmd : mdWF useHex f = true) : readFunc (printFunc useHex f) = some f := by
-  simp only [wfSyn, Bool.and_eq_true, Bool.not_eq_true', List.all_eq_true] at h
-  obtain ⟨⟨hn, hp⟩, hb⟩ := h
+  simp only [wfSyn, leadOK, Bool.and_eq_true, Bool.not_eq_true', List.all_eq_true, decide_eq_true_eq, Option.isNone_iff_eq_none] at h
+  obtain ⟨⟨⟨⟨hn, hp⟩, hb⟩, hl, _⟩, hrest⟩ := h
   have hname : f.name ≠ [] := by intro e; rw [e] at hn; simp at hn
-  have hok : headerOK f := ⟨hname, fun p hp' => identOKB_sound _ (hp p hp')⟩
+  have hok : headerOK f := ⟨hname, fun p hp' => identOKB_sound _ (hp p hp'), hl, hrest⟩
   by_cases hbl : f.blocks = []
   · -- a declaration
-    obtain ⟨fr, fn, fp, fb⟩ := f
+    obtain ⟨fr, fn, fp, fb, fl⟩ := f
     simp only at hbl
     subst hbl
     simp only [printFunc, List.isEmpty_nil, if_true, readFunc, readDecl_print _ hok]
@@ -449,14 +449,18 @@ theorem fillBlocks_id : ∀ (bs : List Block) (l : List Numbering.Slot), (∀ b 
 
 theorem fill_id (f : Func) (l : List Numbering.Slot) (h : wfSyn f = true) : fill f l = f := by
   simp only [wfSyn, Bool.and_eq_true, List.all_eq_true] at h
-  obtain ⟨⟨_, hp⟩, hb⟩ := h
+  obtain ⟨⟨⟨⟨_, hp⟩, hb⟩, _⟩, _⟩ := h
   unfold fill
   simp only [fillParams_id f.params l hp, fillBlocks_id f.blocks _ hb]
 
 theorem translateIn_wf (ge : GEnv) (f : Func) (hs : wfSyn f = true) (h : wfSemIn ge f = true) : translateIn ge f = some f := by
   simp only [wfSemIn, Bool.and_eq_true, Bool.not_eq_true'] at h
   obtain ⟨⟨⟨⟨⟨⟨⟨⟨hd, hu⟩, hl⟩, hn⟩, hc⟩, ht⟩, hg⟩, hcalls⟩, hpads⟩ := h
-  unfold translateIn
+  have hlead : leadOK f.lead = true := by
+    simp only [wfSyn, Bool.and_eq_true] at hs
+    exact hs.1.2
+  simp only [translateIn, hlead, if_true]
+  unfold translateCore
   have hp := Props.C08.parser_accepts_exactly_llvm (slotsOf f) 0
   unfold parseAssign
   rw [hp]
